@@ -63,6 +63,24 @@ func (fc *FnCtx) monitorAcquire(cc *ssa.CallCommon, st *State) {
 		return
 	}
 	fc.havoc(st, ts)
+	// `ghost g` entries: g is a ghost array indexed by the object (first) (facts about
+	// what the object has published, e.g. which of its sockets are open); another goroutine
+	// that changed the protected fields changed that row too, so it is havocked with them
+	for _, name := range fields {
+		if !strings.HasPrefix(name, "ghost ") {
+			continue
+		}
+		g := strings.TrimSpace(strings.TrimPrefix(name, "ghost "))
+		sort := fc.eng.ghostSort(g)
+		if !strings.HasPrefix(sort, "(Array Int ") {
+			panic(specErr("monitor: ghost " + g + " is not a ghost array indexed by the object"))
+		}
+		// the object's row of a two-level array, or its entry of a one-level array
+		row := strings.TrimSuffix(strings.TrimPrefix(sort, "(Array Int "), ")")
+		cur := fc.ghost(st, g)
+		fr := fc.vc.sc.fresh("gh_"+g+"_row", row)
+		st.Gh[g] = fc.vc.sc.define("gh_"+g, sort, app("store", cur, obj.S, fr))
+	}
 	fc.note("lock acquisition on %s: fields %s havocked, object invariant assumed", key, strings.Join(fields, ", "))
 	if oi := fc.eng.cs.ObjInvs[stripTypeParams(typeName(pt.Elem()))]; oi != nil {
 		env := &Env{fc: fc, vars: map[string]Val{"this": obj}, cur: st, old: fc.root().old}
